@@ -755,6 +755,40 @@ impl SchedX {
                     finish: Box::new(move || final_check(c3, dir, Some(1), &[])),
                 }
             }
+            // one thread, rollback enabled, three overlapping sessions: ending the third must not
+            // wait for the first two
+            "H6r" => {
+                let (c, dir) = self.base_ctx(&[0]);
+                let (c1, c3) = (c.clone(), c);
+                Execution {
+                    threads: vec![Box::new(move || {
+                        let s1 = c1.n.begin_session(SessionParams::default());
+                        let s2 = c1.n.begin_session(SessionParams::default());
+                        let s3 = c1.n.begin_session(SessionParams::default());
+                        sp("T.before-finish-of-third-session");
+                        let mut a = vec![(ka(), KeyReadWrite::Write(Some(val(1)))), (kb(), KeyReadWrite::Write(Some(val(1))))];
+                        a.sort_by(|x, y| x.0.cmp(&y.0));
+                        let fin = s3.finish(a);
+                        if fin.is_err() {
+                            c1.err("finish of the third session failed".into());
+                        }
+                        let a1 = s1.read(ka()).unwrap().map(|v| v[0]);
+                        let a2 = s2.read(kb()).unwrap().map(|v| v[0]);
+                        if a1 != Some(0) || a2 != Some(0) {
+                            c1.err(format!("the older sessions read v{a1:?} / v{a2:?}"));
+                        }
+                        drop(s1);
+                        drop(s2);
+                        if let Ok(f) = fin {
+                            if let Err(e) = f.commit(&c1.n) {
+                                c1.err(format!("commit failed: {e:#}"));
+                            }
+                        }
+                        drop(c1);
+                    })],
+                    finish: Box::new(move || final_check(c3, dir, Some(1), &[])),
+                }
+            }
             // one thread holding two overlapping sessions ∥ writer
             "H6" => {
                 let (c, dir) = self.base_ctx(&[0]);
@@ -1790,8 +1824,8 @@ impl Engine for SchedX {
         let thorough = tier == "thorough";
         let (harnesses, rule): (Vec<&str>, &str) = match prop {
             "C15" => (
-                vec!["H1", "H2", "H3", "H3nb", "H3ov", "H4", "H5", "H6", "H6w", "H7", "H8", "H8ov", "H8r"],
-                "schedx: closed harnesses of 2–3 real threads on two colliding keys (same value leaf, same merkle page), values stamped with the writer's version, rollback enabled: H1 reader∥blocking writer; H2 reader∥non-blocking writer (prepared changeset, retried blocking when handed back); H3/H3nb/H3ov two writers with changesets on one base (blocking / non-blocking / overlay) followed by reopen and rollback(1); H4 reader∥rollback; H5 reader∥writer∥writer; H6 one thread with two overlapping sessions∥writer; H6w one thread, warm-up on and one commit worker, two overlapping sessions, the second one finished while the first is alive; H8/H8ov/H8r a changeset or overlay prepared on the current state ∥ rollback(1) [∥ a reader]: the writers serialise — commit then rollback (final = the state before the commit, one further rollback possible) or rollback then commit (the changeset is refused, final = the rolled-back state); H7 two threads proving different keys (present and absent) through ONE shared session on a cold store, with scheduling points at every I/O submission and every wait for a completion of the calling threads (the scheduler lets outstanding reads complete before it decides, so the enabled set does not depend on I/O speed). EVERY schedule of the visible points (API lock acquisitions with parking_lot's writer-preferring FIFO fairness modelled in the scheduler, the read-transaction wait, harness points between session operations) with ≤c preemptions is executed on a fresh store, c = 0,1,2 (thorough 3). Oracle per schedule: terminates (no enabled thread = deadlock); all reads and the proof of one session agree with one committed version and with session.prev_root(); exactly one of two competing changesets wins; final state, root and state after reopen are the winner's; rollback(1) restores the base. One case = one harness × one bound; evaluations = cases, transitions = scheduler steps, states = distinct schedules (trace digests).",
+                vec!["H1", "H2", "H3", "H3nb", "H3ov", "H4", "H5", "H6", "H6w", "H6r", "H7", "H8", "H8ov", "H8r"],
+                "schedx: closed harnesses of 2–3 real threads on two colliding keys (same value leaf, same merkle page), values stamped with the writer's version, rollback enabled: H1 reader∥blocking writer; H2 reader∥non-blocking writer (prepared changeset, retried blocking when handed back); H3/H3nb/H3ov two writers with changesets on one base (blocking / non-blocking / overlay) followed by reopen and rollback(1); H4 reader∥rollback; H5 reader∥writer∥writer; H6 one thread with two overlapping sessions∥writer; H6w one thread, warm-up on and one commit worker, two overlapping sessions, the second one finished while the first is alive; H6r one thread, rollback enabled, three overlapping sessions, the third one finished while the first two are alive; H8/H8ov/H8r a changeset or overlay prepared on the current state ∥ rollback(1) [∥ a reader]: the writers serialise — commit then rollback (final = the state before the commit, one further rollback possible) or rollback then commit (the changeset is refused, final = the rolled-back state); H7 two threads proving different keys (present and absent) through ONE shared session on a cold store, with scheduling points at every I/O submission and every wait for a completion of the calling threads (the scheduler lets outstanding reads complete before it decides, so the enabled set does not depend on I/O speed). EVERY schedule of the visible points (API lock acquisitions with parking_lot's writer-preferring FIFO fairness modelled in the scheduler, the read-transaction wait, harness points between session operations) with ≤c preemptions is executed on a fresh store, c = 0,1,2 (thorough 3). Oracle per schedule: terminates (no enabled thread = deadlock); all reads and the proof of one session agree with one committed version and with session.prev_root(); exactly one of two competing changesets wins; final state, root and state after reopen are the winner's; rollback(1) restores the base. One case = one harness × one bound; evaluations = cases, transitions = scheduler steps, states = distinct schedules (trace digests).",
             ),
             "C20" => (
                 vec!["O1", "O2", "O2x3", "O3", "O4", "L1", "L2", "L3", "L4", "P1", "P1k"],
@@ -1808,7 +1842,7 @@ impl Engine for SchedX {
                     continue;
                 }
                 // fixed-order harnesses: once
-                if (h.starts_with('L') || h.starts_with('P') || *h == "H6w") && b > 0 {
+                if (h.starts_with('L') || h.starts_with('P') || *h == "H6w" || *h == "H6r") && b > 0 {
                     continue;
                 }
                 cases.push(json!({"harness": h, "bound": b, "max_exec": if thorough { 200000 } else { 4000 }, "budget_s": if thorough { 1500 } else { 40 }}));
